@@ -16,7 +16,7 @@ RULE = ("random removal-enabled source graphs (reciprocal pairs with disjoint/ov
         "result leaves snapshot(source) unchanged and vice versa, and so do later add_interaction calls (prolonging "
         "existing intervals, adding pairs) on either graph. distinct = distinct (source model state, "
         "conversion).")
-MIN = {"quick": {"conv:has_interaction(u,v,t)": 50000, "conv:source-unchanged": 3000, "conv:isolation": 3000, "conv:isolation(structure)": 3000},
+MIN = {"quick": {"conv:has_interaction(u,v,t)": 50000, "conv:source-unchanged": 1500, "conv:isolation": 1500, "conv:isolation(structure)": 1500},
        "thorough": {"conv:has_interaction(u,v,t)": 1000000, "conv:source-unchanged": 60000, "conv:isolation": 60000, "conv:isolation(structure)": 60000}}
 REQUIRED_CELLS = {t: ("conv:to_undirected", "conv:to_undirected(reciprocal)", "conv:to_directed",
                       "src:reciprocal-overlapping", "src:reciprocal-disjoint", "src:self-loop", "src:isolated",
